@@ -131,6 +131,22 @@ func c11Prior(src tm.Tree, variant int) tm.Tree {
 			if len(e.Target) > 4000 {
 				e.Target = "old"
 			}
+		case tm.Chr, tm.Blk:
+			// variant 1: a node of the same type with other numbers; variant 2: the other kind of device / a regular file in its place
+			if variant == 1 {
+				e.Rdev = s.Rdev ^ 0x0101
+				e.Mode = 0o611
+			} else if len(s.Path)%2 == 0 {
+				e.Type = map[byte]byte{tm.Chr: tm.Blk, tm.Blk: tm.Chr}[s.Type]
+			} else {
+				e = tm.File(s.Path, []byte("a regular file where a device belongs"), 0o644, s.Mtime-100)
+			}
+		case tm.Fifo, tm.Sock:
+			if variant == 1 {
+				e.Mode = 0o611
+			} else {
+				e = tm.File(s.Path, []byte("a regular file where a special file belongs"), 0o644, s.Mtime-100)
+			}
 		default:
 			continue
 		}
@@ -190,6 +206,13 @@ func c11ValueTree() tm.Tree {
 		}
 	}
 	t = append(t, tm.Entry{Path: "fifo", Type: tm.Fifo, Mode: 0o640, Mtime: tm.Past}, tm.Entry{Path: "sock", Type: tm.Sock, Mode: 0o750, Mtime: tm.Past})
+	// equal device numbers on nodes that are not neighbours in the list (other entries in between), in one directory and
+	// in two directories; equal numbers on neighbours; entries with equal mode / time / owner runs interrupted by others
+	t = append(t, tm.Entry{Path: "same-a-null", Type: tm.Chr, Mode: 0o666, Mtime: tm.Past, Rdev: 0x0103}, tm.File("same-b-file", []byte("between"), 0o644, tm.Past),
+		tm.Entry{Path: "same-c-null", Type: tm.Chr, Mode: 0o666, Mtime: tm.Past, Rdev: 0x0103}, tm.Entry{Path: "same-d-null", Type: tm.Chr, Mode: 0o666, Mtime: tm.Past, Rdev: 0x0103},
+		tm.L("same-e-link", "x"), tm.Entry{Path: "same-f-blk", Type: tm.Blk, Mode: 0o660, Mtime: tm.Past, Rdev: 0x0103},
+		tm.D("jail1", 0o755, tm.Past), tm.Entry{Path: "jail1/null", Type: tm.Chr, Mode: 0o666, Mtime: tm.Past, Rdev: 0x0103}, tm.File("jail1/passwd", []byte("x"), 0o644, tm.Past),
+		tm.D("jail2", 0o755, tm.Past), tm.Entry{Path: "jail2/null", Type: tm.Chr, Mode: 0o666, Mtime: tm.Past, Rdev: 0x0103}, tm.Entry{Path: "jail2/zero", Type: tm.Chr, Mode: 0o666, Mtime: tm.Past, Rdev: 0x0105})
 	// owners
 	for i, id := range []int{0, 1, 65534, 12345} {
 		e := tm.File(fmt.Sprintf("own%d", i), []byte("owner"), 0o644, tm.Past)
@@ -235,7 +258,7 @@ func init() {
 	core.Register(&core.Prop{
 		ID:    "C11",
 		Level: "model_checking",
-		Rule: "perms: all 512 permission values on files and on directories (each holding a file) x {-rp,-r,-rpt,-a,-rt,-rpc} x 5 arrangements x prior destination {absent, up to date with other perms/owner, other content}; subsets: value pools (10 boundary mtimes incl. pre-1970 and sub-second, 8 link targets up to 4095 bytes, 16 rdevs x {chr,blk}, fifo, socket, 4 uid/gid values) x every subset of {-p,-t,-l,-D,-o,-g} x 5 arrangements x 3 prior states; nonroot (thorough): nested read-only directories received by a uid-65534 worker. " +
+		Rule: "perms: all 512 permission values on files and on directories (each holding a file) x {-rp,-r,-rpt,-a,-rt,-rpc} x 5 arrangements x prior destination {absent, up to date with other perms/owner, other content}; subsets: value pools (10 boundary mtimes incl. pre-1970 and sub-second, 8 link targets up to 4095 bytes, 16 rdevs x {chr,blk} plus device nodes with equal numbers as neighbours / separated by other entries / in two directories, fifo, socket, 4 uid/gid values) x every subset of {-p,-t,-l,-D,-o,-g} x 5 arrangements x 3 prior states; nonroot (thorough): nested read-only directories received by a uid-65534 worker. " +
 			"oracle: per transferred entry same type; -p perm bits; -t regular-file mtime to the second; -l target; -D rdev; -o/-g owner/group (root); without -p an existing regular file keeps its permission bits. states = entries compared, transitions = sessions",
 		Assum: []string{"runs as root on tmpfs (owner tests) — id mapping by name is not demanded (single host)", "directory and symlink mtimes are not compared"},
 		Parts: func(tier string) []core.Part {
